@@ -15,6 +15,7 @@ import (
 	"sync"
 	"testing"
 	"testing/synctest"
+	"time"
 
 	utls "github.com/refraction-networking/utls"
 	"github.com/wi1dcard/fingerproxy"
@@ -97,7 +98,7 @@ var (
 )
 
 func newEnv(rep *ev.Report, preserve bool, script func(*bubble.RecReq) *bubble.RespScript) *env {
-	fingerproxy.VerifSetFlags(fingerproxy.VerifFlags{PreserveHost: preserve, Probe: true, Flush: "100ms", Idle: "180s", Read: "60s", Write: "60s", TLSHandshake: "10s"})
+	fingerproxy.VerifSetFlags(fingerproxy.VerifFlags{PreserveHost: preserve, Probe: true, Flush: "100ms", Idle: "180s", Read: flagRead, Write: flagWrite, TLSHandshake: "10s"})
 	to, _ := url.Parse("http://backend.internal:8080")
 	h := fingerproxy.VerifDefaultReverseProxyHTTPHandler(to, fingerproxy.DefaultHeaderInjectors())
 	be := bubble.NewRealBackend()
@@ -128,8 +129,20 @@ func newEnv(rep *ev.Report, preserve bool, script func(*bubble.RecReq) *bubble.R
 		e.h2 = bubble.NewH2SessionWith(c2, clientSettings...)
 	}
 	synctest.Wait()
+	if agedFor > 0 {
+		// the connections are older than the TLS handshake timeout when they carry their first exchange
+		time.Sleep(agedFor)
+		synctest.Wait()
+	}
 	return e
 }
+
+// the binary's -timeout-http-read / -timeout-http-write flags and the age of the connections at their first exchange
+// (group "aged" varies them)
+var (
+	flagRead, flagWrite = "60s", "60s"
+	agedFor             time.Duration
+)
 
 func (e *env) close() {
 	e.st.Shutdown()
@@ -656,6 +669,50 @@ func TestCheck(t *testing.T) {
 	}
 	for _, j := range groupY(t, rep) {
 		jobs = append(jobs, job(j))
+	}
+	// ---- group "aged": connections older than the TLS handshake timeout (11 s > 10 s), under every on/off combination of
+	// the read and write timeout flags; an upload and a download of 20 000 bytes each, both protocols
+	for _, rd := range []string{"60s", "0s"} {
+		for _, wr := range []string{"60s", "0s"} {
+			for _, proto := range []string{"h1", "h2"} {
+				rd, wr, proto := rd, wr, proto
+				jobs = append(jobs, func() {
+					res := bubble.Run(t, func() {
+						flagRead, flagWrite, agedFor = rd, wr, 11*time.Second
+						defer func() { flagRead, flagWrite, agedFor = "60s", "60s", 0 }()
+						big := pat(20000, 5)
+						e := newEnv(rep, false, func(r *bubble.RecReq) *bubble.RespScript {
+							return &bubble.RespScript{Status: 200, Header: http.Header{"Content-Type": {"application/x-c08"}, "Content-Length": {fmt.Sprint(len(big))}}, Pieces: [][]byte{big}}
+						})
+						if e == nil {
+							return
+						}
+						defer e.close()
+						desc := fmt.Sprintf("aged %s: connection 11 s old (handshake timeout 10 s), -timeout-http-read %s -timeout-http-write %s", proto, rd, wr)
+						for _, rs := range []reqShape{{method: "POST", target: "/up", hs: hss[0], body: pat(20000, 3), framing: map[string]string{"h1": "cl", "h2": "d16384"}[proto]},
+							{method: "GET", target: "/down", hs: hss[0], framing: map[string]string{"h1": "cl", "h2": "d16384"}[proto]}} {
+							rec, g := e.exchange(rep, proto, rs, "localhost", nil)
+							if rec == nil {
+								return
+							}
+							rep.Add("evaluations", 1)
+							rep.Note("distinct_nontrivial", desc+" "+rs.method)
+							checkRequest(rep, desc, proto, false, rs, "localhost", nil, rec)
+							if g.status != 200 || !bytes.Equal(g.body, big) {
+								rep.Violate(map[string]any{"kind": "response-damaged-on-aged-connection", "proto": proto}, map[string]any{"desc": desc},
+									"%s: %s %s: the client got status %d with %d body bytes, the backend sent 200 with %d", desc, rs.method, rs.target, g.status, len(g.body), len(big))
+							}
+						}
+					})
+					if res.Panic != nil {
+						rep.HarnessError("aged: panic: %v\n%s", res.Panic, res.Stack)
+					}
+					if res.Hang != "" {
+						rep.Violate(map[string]any{"kind": "hang"}, map[string]any{"hang": res.Hang}, "aged: the exchange never completed: %s", res.Hang)
+					}
+				})
+			}
+		}
 	}
 	rep.Info["jobs_total"] = len(jobs)
 	for i, j := range jobs {
